@@ -143,6 +143,7 @@ type FeatureList struct {
 
 func (fl *FeatureList) parseFeatures(src []byte) error {
 	fl.Features = make([]Feature, len(fl.Records))
+	budget := parsingBudget(src)
 	for i, rec := range fl.Records {
 		var err error
 		if L := len(src); L < int(rec.Offset) {
@@ -151,6 +152,9 @@ func (fl *FeatureList) parseFeatures(src []byte) error {
 		fl.Features[i], _, err = ParseFeature(src[rec.Offset:])
 		if err != nil {
 			return err
+		}
+		if budget -= 4 + 2*len(fl.Features[i].LookupListIndices); budget < 0 {
+			return errors.New("invalid FeatureList: too many overlapping Feature tables")
 		}
 	}
 	return nil
